@@ -181,8 +181,25 @@ fn json_fixed_point(ctx: &mut Ctx, text: &str, class: &str) {
     }
 }
 
-/// (2) stream == buffer, lazy rows == eager rows
+/// (2) stream == buffer, lazy rows == eager rows; also for the text with a byte order mark, a blank or a newline put in
+/// front of it or behind it (whatever the buffer entry point makes of those, the reader entry points must make the same)
 fn stream_equals_buffer(ctx: &mut Ctx, text: &str, rng: &mut Rng) {
+    stream_equals_buffer_one(ctx, text, rng);
+    if rng.chance(1, 5) && text.len() < 20_000 {
+        let deco = match rng.below(6) {
+            0 => format!("\u{feff}{text}"),
+            1 => format!(" {text}"),
+            2 => format!("\n{text}"),
+            3 => format!("{text} "),
+            4 => format!("{text}\u{feff}"),
+            _ => format!("\u{feff}\u{feff}{text}\n"),
+        };
+        ctx.stratum("stream-vs-buffer:decorated");
+        stream_equals_buffer_one(ctx, &deco, rng);
+    }
+}
+
+fn stream_equals_buffer_one(ctx: &mut Ctx, text: &str, rng: &mut Rng) {
     let buf = match with_fuel(fuel(text.len()), || from_str(text)).result {
         Ok(r) => r,
         Err(_) => return,
@@ -319,6 +336,32 @@ fn laziness(ctx: &mut Ctx, rng: &mut Rng, idx: u64) {
 }
 
 pub fn run(ctx: &mut Ctx) {
+    // accepted texts at the decoder's nesting limit: chains of 126 / 127 containers around every kind of innermost value
+    // (an empty grid with marker meta, an empty dict ...); their re-encoding must still be accepted
+    if ctx.shard == 3 % ctx.nshards {
+        let families: [(&str, &[u8]); 5] = [("list", &[0]), ("dict", &[1]), ("grid", &[2]), ("mixed", &[0, 1, 2]), ("meta", &[2, 3, 4, 1])];
+        let mut idx = 0u64;
+        for (_fam, kinds) in families {
+            for d in [100usize, 126, 126, 126, 126, 126, 126, 126, 127, 127, 127, 127, 127, 127, 127] {
+                let i = idx;
+                idx += 1;
+                if !ctx.begin("deep-chain", i) {
+                    continue;
+                }
+                let mut rng = ctx.case_rng("deep-chain", i);
+                let m = crate::gen::deep_chain_with_leaf(&mut rng, d, kinds, (i % 7) as usize);
+                if let Ok(text) = libhaystack::encoding::zinc::encode::to_zinc_string(&crate::bridge::to_value(&m)) {
+                    ctx.stratum("deep-chain");
+                    zinc_fixed_point(ctx, &text, "deep-chain");
+                    stream_equals_buffer(ctx, &text, &mut rng);
+                }
+                // the same value in the reference writer's plain spelling (bare marker tags), which does not depend on how the
+                // library's own encoder spells things at that depth
+                let (text, _) = write_zinc(&mut rng, &m, false);
+                zinc_fixed_point(ctx, &text, "deep-chain");
+            }
+        }
+    }
     let corpus = corpus_slices();
     // corpus files: whole-file fixed point once (shard 0), slices elsewhere
     if ctx.shard == 0 && ctx.begin("corpus-whole", 0) {
